@@ -193,7 +193,8 @@ class C30(Property):
     min_nontrivial = 20
     rule = ("(i) quoting: random words over an alphabet of shell metacharacters, quotes, whitespace, unicode and the empty string: Lean "
             "shlexQuote vs Python shlex.quote, Lean parseCmd vs shlex.split and vs the original words; (ii) environment: random values through the real "
-            "create_command, its output executed by /bin/sh, vs the Lean rendering model (generated quoting style); (iii) whole-runner differential: random CommandLineTools (1..6 bound "
+            "create_command, its output executed by /bin/sh, vs the Lean rendering model (generated quoting style); (iii) redirections: stdin/stdout/stderr combinations through the real create_command vs the Lean "
+            "suffix model; (iv) whole-runner differential: random CommandLineTools (1..6 bound "
             "inputs of type string/int/float/boolean/File/enum/optional/array/record with position, prefix, separate, itemSeparator, "
             "item bindings, valueFrom; arguments; ShellCommandRequirement with shellQuote:false; EnvVarRequirement; stdin/stdout/stderr) whose "
             "baseCommand dumps argv / SFVT_* environment / stdin as JSON, run by StreamFlow and by cwltool in fresh processes with private "
@@ -218,7 +219,8 @@ class C30(Property):
                  "splitting round trip + differential runs against cwltool")
     level_text = ("grade C (kernel): argv_eq_spec / command_string_eq_spec prove that on the modelled binding fragment StreamFlow builds the same "
                   "elements, order and quoting flags as the standard; quote_roundtrip and argv_verbatim prove that every quoted element reaches "
-                  "the tool verbatim for every string; env_eq_spec proves the same for EnvVarRequirement values (full strength after fix 1a0529c); everything "
+                  "the tool verbatim for every string; env_eq_spec proves the same for EnvVarRequirement values (full strength after fix 1a0529c); "
+                  "redirects_eq_spec_partial for declared stderr with the witness redirects_eq_spec_false (stdout without stderr); everything "
                   "else (floats, JavaScript valueFrom, records, staging, redirections, the real shell) is differential validation against cwltool")
     level_note = ("Lean kernel, axioms within {propext, Classical.choice, Quot.sound}; binding and shell models are hand-written and compared on "
                   "every run with shlex, /bin/sh and with the argv both runners really pass")
@@ -268,9 +270,50 @@ class C30(Property):
                 ctx.fail("env:shell-active-value" if any(c in v for c in '$`\\"') else "env:value-not-verbatim",
                          f"EnvVar value {v!r} reaches the process as {real!r} (command: {cmd[-120:]!r})", {"op": "env", "value": v})
 
+    def _redirections(self, ctx: Ctx) -> None:
+        """the suffix the REAL create_command appends for stdin / stdout / stderr (stderr defaulting to stdout as CWLCommand.execute
+        does — checked by the extractor) against the Lean rendering `renderSuffix (sfSuffix i o e)`; monitor: the effective streams
+        equal the standard's unless the tool has stdout without stderr (known finding)"""
+        import asyncio.subprocess as asp
+
+        from streamflow.core.utils import create_command
+
+        rng = ctx.rng
+        names = [None, "out.txt", "in put.txt", "e'rr", "a$b", "x;y", "é.log", "-", "two  sp"]
+        combos = [(None, None, None), (None, "out.txt", None), ("in.txt", "out.txt", "err.txt"), (None, None, "err.txt")]
+        for _ in range(40 if ctx.tier == "quick" else 400):
+            combos.append((rng.choice(names), rng.choice(names), rng.choice(names)))
+        opt = lambda v: "~" if v is None else hx(v)  # noqa: E731
+        got = ctx.lean("Drivers/C30.lean", [f"redir {opt(i)} {opt(o)} {opt(e)}" for i, o, e in combos])
+        base = create_command("C30", ["CMD"])
+        for (i, o, e), g in zip(combos, got):
+            stdout = o if o is not None else asp.STDOUT
+            stderr = e if e is not None else stdout
+            real = create_command("C30", ["CMD"], stdin=i, stdout=stdout, stderr=stderr)
+            parts = dict(p.split(":", 1) for p in g.split(" "))
+            model = "" if parts["suffix"] == "-" else bytes.fromhex(parts["suffix"]).decode()
+            ctx.case({"op": "redir", "stdin": i, "stdout": o, "stderr": e, "real": real}, ("redir", i, o, e), "redirections")
+            if not real.startswith("CMD") or real[3:] != model:
+                ctx.disagree("redirection rendering model vs create_command", f"stdin={i!r} stdout={o!r} stderr={e!r}: code {real!r}, Lean {('CMD' + model)!r}",
+                             {"op": "redir", "stdin": i, "stdout": o, "stderr": e})
+            # the standard: stderr goes to its own file when declared, else to the runner's stderr
+            want_err = "inherit" if e is None else "file=" + hx(e)
+            streams = parts["streams"].split(",")
+            if e is not None and e == o:
+                continue
+            if len(streams) == 3 and streams[2] != want_err:
+                if o is not None and e is None:
+                    ctx.fail("stdout:file-contains-stderr", f"stdout={o!r} without stderr: create_command renders {real[3:]!r} (stderr merged into the stdout file)",
+                             {"op": "redir", "stdin": i, "stdout": o, "stderr": e})
+                elif o is None and e is None:
+                    ctx.count("stderr-merged-into-captured-output")   # nothing is redirected to a file: the runner logs both streams
+                else:
+                    ctx.fail("redirections", f"stdin={i!r} stdout={o!r} stderr={e!r}: effective streams {parts['streams']}", {"op": "redir", "stdin": i, "stdout": o, "stderr": e})
+
     def explore(self, ctx: Ctx) -> None:
         C.enable_bytecode_cache()
         self._quoting(ctx)
+        self._redirections(ctx)
         C.warm_up()
         rng = ctx.rng
         descs = corpus_tools(os.path.join(ctx.scratch, "corpus"))
